@@ -28,6 +28,16 @@ class Unsupported(Exception):
 
 FORCE_FORK = 'F'
 MERGE = 'M'
+LOCAL = 'Q'
+
+
+class QFrame:
+    """One local run of a quantifier body: the local decisions taken / still to explore."""
+
+    def __init__(self, prefix):
+        self.prefix = list(prefix)
+        self.decisions = []        # (condition term, decision)
+        self.pending = []
 
 FEAS_TIMEOUT_MS = 5000
 MUST_HOLD_TIMEOUT_MS = 1000     # entailment probes (piece sharing, short-circuit sites): `unknown` is "not entailed" (sound)
@@ -81,6 +91,7 @@ class PathState:
         self.side_conditions = []  # stack: in-range conditions collected inside quantifier bodies
         self.fresh_log = []        # every fresh constant, in creation order (for skolemisation in quantifiers)
         self.no_fork = 0           # >0 inside quantifier bodies: a real fork is not allowed
+        self.qframes = []          # local case splits of quantifier bodies (merged by the quantifier model)
         self.known = {}            # z3 term id -> list of (frozenset(scope ids), bool): entailed truth values
         self.reached = set()       # line numbers of return/raise statements reached (reachability cover)
 
@@ -124,6 +135,15 @@ class PathState:
         t = cond.t if isinstance(cond, SBool) else cond
         self._add(self._scoped(t))
 
+    def assume_unscoped(self, cond):
+        """A fact about a symbolic object itself (shape constraint, invariant): the object is cached and
+        outlives the merge scope it happens to be created in, so the fact must not be guarded by it."""
+        if isinstance(cond, bool):
+            if not cond:
+                self.assume(cond)
+            return
+        self._add(cond.t if isinstance(cond, SBool) else cond)
+
     def _add(self, t):
         self.pc.append(t)
         # The feasibility solver only sees quantifier-free facts: satisfiability of quantified
@@ -148,7 +168,29 @@ class PathState:
         dt = _t.time() - t0
         if dt > 1.0:
             self.stats.setdefault('slow_queries', []).append((round(dt, 2), str(r), [str(e)[:200] for e in extra]))
+            import os as _os
+            if _os.environ.get('PYVC_DUMP_SLOW'):
+                k = self.stats['feasibility_queries']
+                s2 = z3.Solver()
+                s2.add(*(list(self.pc)))
+                with open('%s-%d.smt2' % (_os.environ['PYVC_DUMP_SLOW'], k), 'w') as f:
+                    f.write('; %.2fs %s\n' % (dt, r) + s2.to_smt2())
+                s2 = z3.Solver()
+                s2.add(*(list(self.scopes) + list(extra)))
+                with open('%s-%d-assumptions.smt2' % (_os.environ['PYVC_DUMP_SLOW'], k), 'w') as f:
+                    f.write('; %.2fs %s\n' % (dt, r) + s2.to_smt2())
         return r
+
+    def infeasible_site(self):
+        """True iff the current assumptions (pc + scopes) are contradictory.  The answer is recorded in the
+        decision log so that replays of the path do not ask the solver again."""
+        d = self._next_decision()
+        if d in ('cu', 'cs'):
+            self.decisions.append(d)
+            return d == 'cu'
+        d = 'cu' if self.check() == z3.unsat else 'cs'
+        self.decisions.append(d)
+        return d == 'cu'
 
     def is_feasible(self, t):
         r = self.check(t)
@@ -203,7 +245,8 @@ class PathState:
                     self._record_known(t, can_t)
             if can_t and can_f:
                 if self.no_fork:
-                    raise Unsupported('case split inside a quantifier body on %s' % str(t)[:300])
+                    self.decisions.append(LOCAL)
+                    return self._local_fork(t)
                 self.pending.append(self.decisions + [False])
                 d = True
             elif can_t:
@@ -214,9 +257,44 @@ class PathState:
                 raise PathAbort()
         elif d == MERGE:
             raise AssertionError('decision log out of sync (merge at fork)')
+        elif d == LOCAL:
+            self.decisions.append(LOCAL)
+            return self._local_fork(t)
         self.decisions.append(d)
         self._add(self._scoped(t if d else z3.Not(t)))
         return d
+
+    def _local_fork(self, t):
+        """A case split inside a quantifier body: decided per local run of the body; the quantifier
+        model runs the body once per combination and merges the values (if-then-else on the conditions)."""
+        if not self.qframes:
+            raise Unsupported('case split inside a quantifier body')
+        qf = self.qframes[-1]
+        i = len(qf.decisions)
+        if i < len(qf.prefix):
+            ld = qf.prefix[i]
+        else:
+            ld = True
+            qf.pending.append([x[1] for x in qf.decisions] + [False])
+        c = t if ld else z3.Not(t)
+        qf.decisions.append((c, ld))
+        self.scopes.append(c)       # removed by the quantifier model at the end of this local run
+        return ld
+
+    def _local_choose(self, feas, conds):
+        if not self.qframes or conds is None:
+            raise Unsupported('case split inside a quantifier body')
+        qf = self.qframes[-1]
+        i = len(qf.decisions)
+        if i < len(qf.prefix):
+            ld = qf.prefix[i]
+        else:
+            ld = feas[0]
+            for alt in feas[1:]:
+                qf.pending.append([x[1] for x in qf.decisions] + [alt])
+        qf.decisions.append((conds[ld], ld))
+        self.scopes.append(conds[ld])
+        return ld
 
     def choose(self, n, conds=None):
         """n-way decision.  ``conds[i]`` (optional) is the z3 condition of alternative i."""
@@ -226,10 +304,14 @@ class PathState:
             if not feas:
                 raise PathAbort()
             if len(feas) > 1 and self.no_fork:
-                raise Unsupported('case split inside a quantifier body')
+                self.decisions.append((LOCAL, tuple(feas)))
+                return self._local_choose(feas, conds)
             for j in feas[1:]:
                 self.pending.append(self.decisions + [j])
             d = feas[0]
+        elif isinstance(d, tuple) and d and d[0] == LOCAL:
+            self.decisions.append(d)
+            return self._local_choose(list(d[1]), conds)
         self.decisions.append(d)
         if conds is not None:
             self._add(self._scoped(conds[d]))
@@ -284,7 +366,11 @@ class PathState:
             return self
 
         def __exit__(self, et, ev, tb):
-            self.st.scopes.pop()
+            sc = self.st.scopes
+            for k in range(len(sc) - 1, -1, -1):     # conditions of local case splits pushed inside stay
+                if sc[k] is self.t:
+                    del sc[k]
+                    break
             if et is not None and not issubclass(et, (PathAbort, RetryPath, Unsupported)) \
                     and self.site_index is not None:
                 # an exception / control transfer inside a merged operand:
